@@ -144,7 +144,7 @@ def run(rep, tier, seed, tr_errors):
         "Coq 8.16.1 kernel; Coquelicot C with its ring structure; axioms as printed by Print Assumptions (real-number axioms of the standard library)",
         "tools/tr_elements.py: my reading of Python/numpy expression semantics (operator precedence, ** right-assoc, pointwise arrays, `.astype` dropped, x**-1 as inverse, x**2 as product, sqrt as power 1/2)",
         "function symbols cpow, tanh, coth, cosh, sinh are uninterpreted and shared by both sides; the only law assumed is cpow z (-a) = / cpow z a (section hypothesis, stated in each theorem)",
-        "not covered by proof: IEEE rounding, sympy's limit() at f=0/inf (exercised numerically only), the Tlm container (separate obligations)",
+        "not covered by proof: IEEE rounding, sympy's limit() at f=0/inf (exercised numerically only); the Tlm container is covered by its own translator (tools/tr_tlm.py) and theorems, with the sub-circuit values as abstract complex numbers (their own impedances are C01/C02 obligations)",
     ]
     status = tr_elements.generate.status or tr_elements.generate()
     if "tr_elements" in tr_errors:
@@ -159,7 +159,10 @@ def run(rep, tier, seed, tr_errors):
         rep.oblige("lemma:%s_impl_eq_eqn" % sym, ok, "" if ok else "gen/El_%s.v does not compile (ceq did not close the identity)" % sym)
         if not ok:
             broken[sym] = err or "lemma not proved"
+    rep.oblige("translator:tr_tlm", "tr_tlm" not in tr_errors, tr_errors.get("tr_tlm", "gen/Tlm_gen.v regenerated")[-400:])
     thm_ok, names, out = lib.check_props_file(rep, PROPS_FILE)
+    for need in ("C02_Tlm_numeric_eq_symbolic", "C02_Tlm_documented_equation", "C02_Tlm_refused_iff"):
+        rep.oblige("theorem-present:%s" % need, need in names, "")
     # numeric sweep (support; and the violation search for broken classes)
     n_quick, n_thorough = 25, 400
     n = n_quick if tier == "quick" else n_thorough
@@ -187,7 +190,7 @@ def run(rep, tier, seed, tr_errors):
     cfgs, ncmp, tfail = tlm_sweep(rng, 2 if tier == "quick" else 20)
     sweep["Tlm"] = {"configurations": cfgs, "compared": ncmp, "failed": tfail is not None}
     rep.evaluations += ncmp
-    rep.oblige("tlm-numeric-vs-symbolic (27 admissible configurations + sampled inadmissible ones; exercised, not proved)", tfail is None,
+    rep.oblige("tlm-numeric-vs-symbolic on the implementation (27 admissible configurations + sampled inadmissible ones; the search behind C02_Tlm_numeric_eq_symbolic)", tfail is None,
                "" if tfail is None else json.dumps(tfail)[:300])
     if tfail is not None:
         rep.violation("numeric_Tlm", {"kind": "counterexample", "obligation": "Tlm: get_impedances = substituted symbolic expression", "input": tfail})
